@@ -26,6 +26,59 @@ FILES = ["core/calculator.py", "core/tasks.py", "core/full_modulus.py", "core/qh
 from contracts.frame_contracts import history_fallback, ALLOWED_AMBIENT, ALLOWED_SET_ITERATION, ALLOWED_WRITES, ALLOWED_AMBIENT_MODULE, ALLOWED_WRITES_MODULE, frame_result  # noqa: E402,F401
 
 
+def filling_through_configuration(seed, tier):
+    """the clause as a calculation meets it: the table is filled by apply_symetry_on_elast_data with the symmetry settings of the EFFECTIVE configuration (the user
+    names the system only, everything else comes from the packaged defaults).  Tables carry symmetry-allowed components that are small next to the largest modulus
+    (1e-3 ... 1e-6 of it, far above any vanishing tolerance a unit could justify) in GPa-, kbar- and Ry/bohr^3-sized magnitudes: the first pass keeps every supplied
+    value, the second pass changes nothing."""
+    import sympy as sp
+    from specs import laue
+    config = importlib.import_module("cij.io.config")
+    ed = importlib.import_module("cij.io.traditional.elast_dat")
+    c_ = importlib.import_module("cij.util").c_
+    rnd = numpy.random.RandomState(seed + 5)
+    coupling = [k for k, nm in enumerate(fill_env.NAMES) if nm in ("c14", "c15", "c16", "c24", "c25", "c26", "c34", "c35", "c36", "c45", "c46", "c56")]
+    n = 0
+    for system in fill_env.SYSTEMS:
+        if system == "triclinic":
+            continue
+        sym = config.apply_default_config({"elast": {"settings": {"symmetry": {"system": system}}}})["elast"]["settings"]["symmetry"]
+        basis = numpy.array([[float(sp.N(x)) for x in v] for v in laue.invariant_basis(system)])
+        for trial in range(4 if tier == "quick" else 40):
+            unit = (1.0, 10.0, 1.0 / 14710.5)[trial % 3]
+            coef = rnd.uniform(100, 500, size=(3, len(basis)))
+            small = [k for k in range(len(basis)) if not numpy.any(numpy.delete(basis[k], coupling))]      # invariants that live on the normal-shear / shear-shear couplings only
+            for k in small:
+                coef[:, k] = rnd.uniform(0.5, 1.0, size=3) * 500 * 10.0 ** (-3 - (trial + k) % 4) * rnd.choice([-1, 1])
+            tens = (coef @ basis) * unit
+            names = [fill_env.NAMES[k] for k in range(21) if numpy.any(tens[:, k] != 0)]
+
+            def table(rows):
+                return ed.ElastData(100.0, len(rows), 50.0, [ed.ElastVolumeData(90.0 - i, dict((c_(nm[1:]), float(rows[i][nm])) for nm in rows[i])) for i in range(len(rows))], [])
+            rows0 = [{nm: tens[i, fill_env.NAMES.index(nm)] for nm in names} for i in range(3)]
+            data = table(rows0)
+            witness = {"reproduced": True, "system": system, "symmetry_settings": {k: (v if isinstance(v, (int, float, str, bool)) else str(v)) for k, v in sym.items()},
+                       "table": {nm: [r[nm] for r in rows0] for nm in names}}
+            try:
+                ed.apply_symetry_on_elast_data(data, dict(sym))
+                first = [{"c%s%s" % k.v: v for k, v in vol.static_elastic_modulus.items()} for vol in data.volumes]
+                ed.apply_symetry_on_elast_data(data, dict(sym))
+                second = [{"c%s%s" % k.v: v for k, v in vol.static_elastic_modulus.items()} for vol in data.volumes]
+            except Exception as e:
+                return core.refuted("runtime-contract", "%s, filled through the effective configuration: %r" % (system, e), witness_id="idempotent-config:" + system, replay=witness)
+            n += 1
+            scale = float(numpy.abs(tens).max())
+            lost = [nm for nm in names if any(nm not in r or abs(r[nm] - r0[nm]) > 1e-9 * scale for r, r0 in zip(first, rows0))]
+            if lost:
+                return core.refuted("runtime-contract", "%s, filled through the effective configuration: the supplied component(s) %s (%.1e of the largest modulus) are dropped or moved "
+                                    "by the first pass" % (system, lost, max(abs(rows0[0][nm]) for nm in lost) / scale), witness_id="idempotent-config:" + system, replay=dict(witness, first_pass=first))
+            if [sorted(r) for r in first] != [sorted(r) for r in second] or any(abs(r[nm] - q[nm]) > 1e-9 * scale for r, q in zip(first, second) for nm in r):
+                return core.refuted("runtime-contract", "%s: filling an already filled table through the effective configuration changes it" % system,
+                                    witness_id="idempotent-config:" + system, replay=dict(witness, first_pass=first, second_pass=second))
+    return core.proved("runtime-contract", "%d invariant tables with small symmetry-allowed components over eight systems and three unit magnitudes, filled twice by "
+                                           "apply_symetry_on_elast_data with the effective configuration's symmetry settings: supplied values kept, second pass changes nothing" % n)
+
+
 def run(s):
     tier = s.tier
     s.trust("vf/frames.py (conservative AST analysis; unsound for setattr/exec/C extensions/aliasing through locals)", "python import system (modules executed once)")
@@ -188,58 +241,7 @@ def run(s):
         return core.proved("runtime-contract", "a symmetry-allowed component that is zero at all volumes survives a second pass")
     s.oblige("C14.filling_idempotent(zero allowed component)", idempotent_zero_component, ["fill.fill_cij"], kind="finite")
 
-    def idempotent_through_configuration():
-        """the clause as a calculation meets it: the table is filled by apply_symetry_on_elast_data with the symmetry settings of the EFFECTIVE configuration (the user
-        names the system only, everything else comes from the packaged defaults).  Tables carry symmetry-allowed components that are small next to the largest modulus
-        (1e-3 ... 1e-6 of it, far above any vanishing tolerance a unit could justify) in GPa-, kbar- and Ry/bohr^3-sized magnitudes: the first pass keeps every supplied
-        value, the second pass changes nothing."""
-        import sympy as sp
-        from specs import laue
-        config = importlib.import_module("cij.io.config")
-        ed = importlib.import_module("cij.io.traditional.elast_dat")
-        c_ = importlib.import_module("cij.util").c_
-        rnd = numpy.random.RandomState(s.seed + 5)
-        coupling = [k for k, nm in enumerate(fill_env.NAMES) if nm in ("c14", "c15", "c16", "c24", "c25", "c26", "c34", "c35", "c36", "c45", "c46", "c56")]
-        n = 0
-        for system in fill_env.SYSTEMS:
-            if system == "triclinic":
-                continue
-            sym = config.apply_default_config({"elast": {"settings": {"symmetry": {"system": system}}}})["elast"]["settings"]["symmetry"]
-            basis = numpy.array([[float(sp.N(x)) for x in v] for v in laue.invariant_basis(system)])
-            for trial in range(4 if tier == "quick" else 40):
-                unit = (1.0, 10.0, 1.0 / 14710.5)[trial % 3]
-                coef = rnd.uniform(100, 500, size=(3, len(basis)))
-                small = [k for k in range(len(basis)) if not numpy.any(numpy.delete(basis[k], coupling))]      # invariants that live on the normal-shear / shear-shear couplings only
-                for k in small:
-                    coef[:, k] = rnd.uniform(0.5, 1.0, size=3) * 500 * 10.0 ** (-3 - (trial + k) % 4) * rnd.choice([-1, 1])
-                tens = (coef @ basis) * unit
-                names = [fill_env.NAMES[k] for k in range(21) if numpy.any(tens[:, k] != 0)]
-
-                def table(rows):
-                    return ed.ElastData(100.0, len(rows), 50.0, [ed.ElastVolumeData(90.0 - i, dict((c_(nm[1:]), float(rows[i][nm])) for nm in rows[i])) for i in range(len(rows))], [])
-                rows0 = [{nm: tens[i, fill_env.NAMES.index(nm)] for nm in names} for i in range(3)]
-                data = table(rows0)
-                witness = {"reproduced": True, "system": system, "symmetry_settings": {k: (v if isinstance(v, (int, float, str, bool)) else str(v)) for k, v in sym.items()},
-                           "table": {nm: [r[nm] for r in rows0] for nm in names}}
-                try:
-                    ed.apply_symetry_on_elast_data(data, dict(sym))
-                    first = [{"c%s%s" % k.v: v for k, v in vol.static_elastic_modulus.items()} for vol in data.volumes]
-                    ed.apply_symetry_on_elast_data(data, dict(sym))
-                    second = [{"c%s%s" % k.v: v for k, v in vol.static_elastic_modulus.items()} for vol in data.volumes]
-                except Exception as e:
-                    return core.refuted("runtime-contract", "%s, filled through the effective configuration: %r" % (system, e), witness_id="idempotent-config:" + system, replay=witness)
-                n += 1
-                scale = float(numpy.abs(tens).max())
-                lost = [nm for nm in names if any(nm not in r or abs(r[nm] - r0[nm]) > 1e-9 * scale for r, r0 in zip(first, rows0))]
-                if lost:
-                    return core.refuted("runtime-contract", "%s, filled through the effective configuration: the supplied component(s) %s (%.1e of the largest modulus) are dropped or moved "
-                                        "by the first pass" % (system, lost, max(abs(rows0[0][nm]) for nm in lost) / scale), witness_id="idempotent-config:" + system, replay=dict(witness, first_pass=first))
-                if [sorted(r) for r in first] != [sorted(r) for r in second] or any(abs(r[nm] - q[nm]) > 1e-9 * scale for r, q in zip(first, second) for nm in r):
-                    return core.refuted("runtime-contract", "%s: filling an already filled table through the effective configuration changes it" % system,
-                                        witness_id="idempotent-config:" + system, replay=dict(witness, first_pass=first, second_pass=second))
-        return core.proved("runtime-contract", "%d invariant tables with small symmetry-allowed components over eight systems and three unit magnitudes, filled twice by "
-                                               "apply_symetry_on_elast_data with the effective configuration's symmetry settings: supplied values kept, second pass changes nothing" % n)
-    s.oblige("C14.filling_idempotent(through the effective configuration)", idempotent_through_configuration,
+    s.oblige("C14.filling_idempotent(through the effective configuration)", lambda: filling_through_configuration(s.seed, tier),
              ["elast_dat.apply_symetry_on_elast_data", "fill.fill_cij", "cij/data/default/settings.yaml"], kind="finite")
 
     # ---------------- 4. bounded: whole process
